@@ -7,7 +7,7 @@ use gmsol_model::{
     fixed::FixedPointOps,
     num::{MulDiv, Num, Unsigned, UnsignedAbs},
     price::{Price, Prices},
-    BaseMarket, MarketAction, SwapMarketExt, SwapMarketMutExt,
+    BaseMarket, MarketAction, SwapMarketExt, SwapMarketMutExt, SwapMarketMut,
 };
 use num_traits::CheckedSub;
 
@@ -580,4 +580,47 @@ fn c04_delta_construction_u16() {
     let m = delta_market::<u16, 2>();
     check_both_sides_delta::<u16, i64, 2>(&m, kani::any(), kani::any::<i16>(), kani::any::<i16>());
     check_one_side_delta::<u16, i64>(sym::pool(), kani::any(), kani::any::<i16>());
+}
+
+// ------------------------------------------------------------------------------------------------
+// Component: SwapMarketMutExt::apply_swap_impact_value_with_cap (the in-place variant used by deposits)
+// ------------------------------------------------------------------------------------------------
+
+//@ prop=C04 tier=quick kind=hold
+//@ enc=SwapMarketMutExt::apply_swap_impact_value_with_cap, SwapMarketExt::swap_impact_amount_with_cap, Pool::apply_delta_to_long_amount, Pool::apply_delta_to_short_amount
+//@ bound=T=u8/i8: every impact-pool balance, side, price pair (0 < min, max) and i8 impact value
+#[kani::proof]
+fn c04_apply_swap_impact_value_moves_the_pool_u8() {
+    let mut m: VMarket<u8, 1> = VMarket::default();
+    m.swap_impact = sym::pool();
+    let pre = m;
+    let is_long: bool = kani::any();
+    let price = Price { min: kani::any::<u8>(), max: kani::any::<u8>() };
+    let usd: i8 = kani::any();
+    let cur = side(&pre.swap_impact, is_long) as i32;
+    match m.apply_swap_impact_value_with_cap(is_long, &price, &usd) {
+        Ok(ret) => {
+            let ret = ret as i32;
+            let now = side(&m.swap_impact, is_long) as i32;
+            assert!(side(&m.swap_impact, !is_long) == side(&pre.swap_impact, !is_long), "C04: the other side of the impact pool changed");
+            if usd > 0 {
+                // positive impact is paid out of the pool: never more than the balance, never more than floor(value / max price)
+                assert!(now == cur - ret && ret <= cur, "C04: positive impact not deducted from the impact pool");
+                assert!(ret * price.max as i32 <= usd as i32, "C04: positive impact amount worth more than the impact value");
+                assert!(ret == cur || (ret + 1) * price.max as i32 > usd as i32, "C04: positive impact amount neither capped nor floor(value / max price)");
+            } else if usd < 0 {
+                // negative impact is paid into the pool, rounded up
+                assert!(now == cur + ret, "C04: negative impact not added to the impact pool");
+                assert!(ret * price.min as i32 >= -(usd as i32) && (ret - 1) * (price.min as i32) < -(usd as i32), "C04: negative impact amount != ceil(|value| / min price)");
+            } else {
+                assert!(ret == 0 && now == cur);
+            }
+            kani::cover!(usd > 0 && ret > 0 && ret == cur, "capped");
+            kani::cover!(usd < 0 && ret > 1, "negative");
+        }
+        Err(e) => {
+            std::mem::forget(e);
+            assert!(m.swap_impact.same(&pre.swap_impact), "C04: failed impact application changed the pool");
+        }
+    }
 }
